@@ -31,7 +31,10 @@ var c06Base = []string{"p(1)", "q(1,2)", "b(5)"}
 var c06S1 = []string{"p(1)", "q(2,1)", "r(7)"}
 var c06S2 = []string{"p(2)", "p([1])", "q(1,2)"}
 
-var c06Kinds = []string{"simple", "indexed", "multi", "multiarray", "merged", "teeing-base", "teeing-empty", "concurrent", "temporal-adapter"}
+var c06Kinds = []string{"simple", "indexed", "multi", "multiarray", "merged", "teeing-base", "teeing-empty", "concurrent", "temporal-adapter", "temporal-adapter-at", "temporal-adapter-at-teeing", "temporal-adapter-at-overlap"}
+
+// c06At is the instant of the time-point views of the temporal adapter.
+var c06At = time.Unix(1700000000, 0).UTC()
 
 func evalGround(ss []string) []ast.Atom {
 	var out []ast.Atom
@@ -114,7 +117,11 @@ func newSetModel(keyFn func(ast.Atom) string, base []ast.Atom) *setModel {
 }
 
 func structKey(a ast.Atom) string { k, _ := oracle.AtomKeyOf(a); return k }
-func hashKey(a ast.Atom) string   { return fmt.Sprintf("%s/%d#%x", a.Predicate.Symbol, a.Predicate.Arity, a.Hash()) }
+func hashKey(a ast.Atom) string {
+	return fmt.Sprintf("%s/%d#%x", a.Predicate.Symbol, a.Predicate.Arity, a.Hash())
+}
+
+func (m *setModel) inBase(a ast.Atom) bool { _, ok := m.base[m.keyFn(a)]; return ok }
 
 func (m *setModel) visible(k string) bool {
 	_, b := m.base[k]
@@ -184,13 +191,34 @@ func c06New(kind string, base []ast.Atom) c06Store {
 		return c06Store{kind, factstore.NewTeeingStore(factstore.NewSimpleInMemoryStore()), true, false}
 	case "temporal-adapter":
 		return c06Store{kind, factstore.NewTemporalFactStoreAdapter(factstore.NewTemporalStore()), false, true}
+	case "temporal-adapter-at":
+		// the view of one instant; facts added through the adapter are eternal and therefore visible in it
+		return c06Store{kind, factstore.NewTemporalFactStoreAdapterAt(factstore.NewTemporalStore(), c06At), false, true}
+	case "temporal-adapter-at-teeing":
+		// the same view over a teeing temporal store whose read-only base holds the base atoms (eternal)
+		b := factstore.NewTemporalStore()
+		for _, a := range base {
+			b.AddEternal(a)
+		}
+		return c06Store{kind, factstore.NewTemporalFactStoreAdapterAt(factstore.NewTeeingTemporalStore(b), c06At), false, false}
+	case "temporal-adapter-at-overlap":
+		// the same view over a store in which every base atom holds at the instant through two overlapping
+		// intervals: the view must still deliver it once
+		b := factstore.NewTemporalStore()
+		for _, a := range base {
+			b.Add(a, ast.NewInterval(ast.NewTimestampBound(c06At.Add(-10*time.Second)), ast.NewTimestampBound(c06At.Add(5*time.Second))))
+			b.Add(a, ast.NewInterval(ast.NewTimestampBound(c06At.Add(-3*time.Second)), ast.NewTimestampBound(c06At.Add(20*time.Second))))
+		}
+		return c06Store{kind, factstore.NewTemporalFactStoreAdapterAt(b, c06At), false, false}
 	}
 	s := mg.NewStore(kind)
 	_, hr := s.(factstore.FactStoreWithRemove)
 	return c06Store{kind, s, hr, true}
 }
 
-func c06HasBase(kind string) bool { return kind == "merged" || kind == "teeing-base" }
+func c06HasBase(kind string) bool {
+	return kind == "merged" || kind == "teeing-base" || kind == "temporal-adapter-at-teeing" || kind == "temporal-adapter-at-overlap"
+}
 
 type c06Env struct {
 	U        []ast.Atom
@@ -249,13 +277,16 @@ func c06Run(env *c06Env, kind string, ops []c06Op) (string, string) {
 	}
 	ref := newSetModel(structKey, base)
 	hm := newSetModel(hashKey, base)
-	if kind == "temporal-adapter" {
+	if strings.HasPrefix(kind, "temporal-adapter") {
 		hm.repLast, hm.containsRep = true, true
+		if kind != "temporal-adapter" {
+			hm.containsRep = false // the time-point view decides membership by ContainsAt, which looks the atom up by its hash
+		}
 	}
 	if kind == "teeing-base" || kind == "teeing-empty" {
 		ref.mergeBypass, hm.mergeBypass = true, true
 	}
-	hashKeyed := kind == "simple" || kind == "indexed" || kind == "multi" || kind == "temporal-adapter"
+	hashKeyed := kind == "simple" || kind == "indexed" || kind == "multi" || strings.HasPrefix(kind, "temporal-adapter")
 	var lastRet, lastRef, lastHm any
 	for _, op := range ops {
 		switch op.kind {
@@ -264,6 +295,11 @@ func c06Run(env *c06Env, kind string, ops []c06Op) (string, string) {
 			lastRet = st.s.Add(a)
 			lastRef = ref.add(a)
 			lastHm = hm.add(a)
+			if kind == "temporal-adapter-at-overlap" && ref.inBase(a) {
+				// the adapter adds an eternal fact next to the finite intervals the atom already has: a new
+				// (atom, interval) pair, reported as added; its return value is not judged against the view's set
+				lastRet, lastRef, lastHm = nil, nil, nil
+			}
 		case "remove":
 			a := env.U[op.atom]
 			lastRet = st.s.(factstore.FactStoreWithRemove).Remove(a)
@@ -350,6 +386,10 @@ func c06Run(env *c06Env, kind string, ops []c06Op) (string, string) {
 		if st.exact {
 			if n != len(vis) {
 				return "count", fmt.Sprintf("EstimateFactCount=%d, set has %d atoms", n, len(vis))
+			}
+		} else if kind == "temporal-adapter-at-overlap" {
+			if n < len(vis) {
+				return "count", fmt.Sprintf("EstimateFactCount=%d below the %d visible atoms", n, len(vis))
 			}
 		} else if n < len(vis) || n > len(m.base)+len(m.write) {
 			return "count", fmt.Sprintf("EstimateFactCount=%d outside [%d,%d]", n, len(vis), len(m.base)+len(m.write))
